@@ -22,10 +22,18 @@ from httpcore import (
 )
 
 FAULTS = {
-    "connect": {"ConnectError": ConnectError, "ConnectTimeout": ConnectTimeout},
-    "start_tls": {"ConnectError": ConnectError, "ConnectTimeout": ConnectTimeout},
+    "connect": {"ConnectError": ConnectError, "ConnectTimeout": ConnectTimeout,
+                # "other" failures at the establishment stage (C20: must never be retried)
+                "ReadTimeout": ReadTimeout, "WriteError": WriteError, "OSError": OSError},
+    "start_tls": {"ConnectError": ConnectError, "ConnectTimeout": ConnectTimeout,
+                  "ReadTimeout": ReadTimeout, "WriteError": WriteError, "OSError": OSError},
     "read": {"ReadError": ReadError, "ReadTimeout": ReadTimeout},
     "write": {"WriteError": WriteError, "WriteTimeout": WriteTimeout},
+}
+# the documented fault kinds per operation (default menu)
+DEFAULT_FAULT_KINDS = {
+    "connect": ["ConnectError", "ConnectTimeout"], "start_tls": ["ConnectError", "ConnectTimeout"],
+    "read": ["ReadError", "ReadTimeout"], "write": ["WriteError", "WriteTimeout"],
 }
 
 
@@ -441,7 +449,7 @@ class SeqEnv:
         self.chooser = chooser
         self.segment = segment
         self.faults = faults
-        self.fault_kinds = fault_kinds if fault_kinds is not None else {k: list(v) for k, v in FAULTS.items()}
+        self.fault_kinds = fault_kinds if fault_kinds is not None else {k: list(v) for k, v in DEFAULT_FAULT_KINDS.items()}
         self.fp = fp
         self.eof_anywhere = eof_anywhere
         self.seg_cost = seg_cost
